@@ -85,6 +85,8 @@ class DataCase(object):
             if rng.random() < 0.5 else list(self.outputs)
         self.map_explicit = self.obs_names != self.outputs or \
             rng.random() < 0.3
+        self.map_reversed = bool(rng.integers(2))
+        self.map_extra_key = rng.random() < 0.3
         # measurements
         self.meas = {}
         for k in self.keys:
@@ -301,8 +303,15 @@ def _setup_controller(case, df, ctx, feats):
         kw['dose_key'] = kn['dose'] if kn['dose'] in df.columns else None
         kw['dose_duration_key'] = None
     if case.map_explicit:
-        kw['output_observable_dict'] = dict(zip(case.outputs,
-                                                case.obs_names))
+        # the mapping is a dictionary: its insertion order is arbitrary and
+        # it may carry entries for outputs the model does not have
+        items = list(zip(case.outputs, case.obs_names))
+        if getattr(case, 'map_reversed', False):
+            items = items[::-1]
+        if getattr(case, 'map_extra_key', False):
+            items = [('not an output of this model', case.obs_names[0])] \
+                + items
+        kw['output_observable_dict'] = dict(items)
     return c, kw
 
 
@@ -334,6 +343,8 @@ def posterior_case(ctx, rng, idx):
              'id_style': case.id_style, 'doses': case.has_doses,
              'duration_column': case.with_duration_col,
              'explicit_mapping': case.map_explicit,
+             'mapping_reversed': case.map_explicit and case.map_reversed,
+             'mapping_extra_key': case.map_explicit and case.map_extra_key,
              'renamed_keys': case.key_names['id'] != 'ID'}
     names_ind = case.indiv_names()
     n_ind = len(names_ind)
